@@ -250,7 +250,10 @@ RulesLoop:
 				break RulesLoop
 			}
 		case corazatypes.AllowTypeAll:
-			break RulesLoop
+			// allow skips all the remaining phases but the logging one, which always runs
+			if phase != types.PhaseLogging {
+				break RulesLoop
+			}
 		}
 		// Reset matched_vars only when the previous rule actually populated it.
 		// In typical CRS evaluation most rules don't match, so this avoids
